@@ -4,7 +4,9 @@ import (
 	"bytes"
 	"errors"
 	"fmt"
+	"runtime"
 	"strings"
+	"sync"
 
 	"github.com/flosch/pongo2/v6"
 )
@@ -113,11 +115,89 @@ func runC14(r *run) {
 			}
 		}
 	}
-	driveCases(r, gen, execC14)
+	gen2 := func(emit func(caseT)) {
+		gen(emit)
+		// the very first executions of a freshly compiled template, all at once, through all four
+		// variants, with the block options on: every one of them gives what a lone execution gives
+		for i := 0; i < 24; i++ {
+			emit(caseT{"concfirst", []string{fmt.Sprint(i)}})
+		}
+	}
+	driveCases(r, gen2, execC14)
 	r.finish(nil)
 }
 
+func execConcFirst(r *run, c caseT) {
+	var i int
+	fmt.Sscanf(c.args[0], "%d", &i)
+	var sb strings.Builder
+	for k := 0; k < 300; k++ {
+		sb.WriteString([]string{"{% if a %}\n\n\nrow\n{% endif %}\n\n", "  \t{% for q in lst %}\n\n {{ q }}\n\n  {% endfor %}\n\n", "{% with z=1 %}\n\n{{ z }}{% endwith %}\n\n  "}[(i+k)%3])
+	}
+	src := sb.String()
+	ctx := func() pongo2.Context { return pongo2.Context{"a": 1, "lst": []int{1, 2}} }
+	mk := func() *pongo2.Template {
+		set := pongo2.NewSet("concfirst", newMemLoader(map[string]string{"base.tpl": src}))
+		if i%2 == 0 {
+			set.Options.TrimBlocks, set.Options.LStripBlocks = true, i%4 == 0
+		}
+		var tpl *pongo2.Template
+		var err error
+		if i%3 == 0 {
+			tpl, err = set.FromString("{% extends \"base.tpl\" %}")
+		} else {
+			tpl, err = set.FromString(src)
+		}
+		must(err)
+		if i%2 == 1 {
+			tpl.Options.TrimBlocks, tpl.Options.LStripBlocks = true, i%4 == 1
+		}
+		return tpl
+	}
+	want, werr := mk().Execute(ctx())
+	must(werr)
+	old := runtime.GOMAXPROCS(4)
+	defer runtime.GOMAXPROCS(old)
+	id := -1
+	for round := 0; round < 10 && id < 0; round++ {
+		tpl := mk()
+		const k = 6
+		outs := make([]string, k)
+		var wg sync.WaitGroup
+		start := make(chan struct{})
+		for gi := 0; gi < k; gi++ {
+			wg.Add(1)
+			go func(gi int) {
+				defer wg.Done()
+				<-start
+				out, xerr, p := execVariant(tpl, ctx(), gi)
+				if xerr != nil || p != nil {
+					out = fmt.Sprint("failed: ", xerr, p)
+				}
+				outs[gi] = out
+			}(gi)
+		}
+		close(start)
+		wg.Wait()
+		for gi, o := range outs {
+			if o != want {
+				id = r.emit(c.op, c.args, "concfirst")
+				r.reject(id, "one of the first, simultaneous executions of a fresh template gave something else than a lone execution", map[string]any{"round": round, "variant": gi % 4, "length": len(o), "expected_length": len(want)})
+				break
+			}
+		}
+	}
+	if id < 0 {
+		r.emit(c.op, c.args, "concfirst")
+	}
+	r.nontrivial("concfirst" + c.args[0])
+}
+
 func execC14(r *run, c caseT) {
+	if c.op == "concfirst" {
+		execConcFirst(r, c)
+		return
+	}
 	w, src, ctx := worldFromArgs(c.args)
 	if c.op == "render" {
 		o, _ := w.render(src, false, ctx)
@@ -333,6 +413,30 @@ func execC14(r *run, c caseT) {
 				r.reject(id, "rendering a template again while it is being rendered (from a context function, into another writer) disturbed one of the renderings", map[string]any{"template": src, "tick": k,
 					"variant": []string{"Execute", "ExecuteBytes", "ExecuteWriter", "ExecuteWriterUnbuffered"}[v], "outer": outs[v], "inner_unbuffered": inner[0], "inner_execute": inner[1], "expected": base.s})
 				return
+			}
+		}
+	}
+	// the same with the set in debug mode: what the unbuffered variant wrote before a failure is
+	// still a leading part of the successful output, nothing else
+	{
+		b2 := w.build()
+		b2.set.Debug = true
+		if tpl2, err2, p2 := compileIn(b2, src, false); err2 == nil && p2 == nil {
+			for k := 1; k <= nticks && k <= 3; k++ {
+				cx, _ := mkCtx(k)
+				ub := &recWriter{limit: -1}
+				xerr := tpl2.ExecuteWriterUnbuffered(cx, ub)
+				if xerr != nil && !strings.HasPrefix(base.s, ub.buf.String()) {
+					r.reject(id, "ExecuteWriterUnbuffered (set in debug mode) wrote something that is not a leading part of the successful output", map[string]any{"template": src, "tick": k, "written": ub.buf.String(), "full": base.s})
+					return
+				}
+				cx2, _ := mkCtx(k)
+				var sb strings.Builder
+				sb.WriteString("PRE")
+				if e := tpl2.ExecuteWriter(cx2, &sb); e != nil && sb.String() != "PRE" {
+					r.reject(id, "ExecuteWriter (set in debug mode) wrote to the caller's writer although execution failed", map[string]any{"template": src, "tick": k, "written": sb.String()})
+					return
+				}
 			}
 		}
 	}
